@@ -271,7 +271,8 @@ def loopAll (sem : ScmSem σ κ) (atticEnabled : Bool) (new : List (NewEntry σ)
   | [], st, _ => (st, none)
   | e :: rest, st, tr =>
     match loopStep sem atticEnabled new st tr e with
-    | .error x => (st, some x)
+    -- the only error (attic disabled) is raised after the switch attempt, whose effects stay
+    | .error x => ((trySwitch sem new e (normComps e.dir) st).1, some x)
     | .ok (st', tr') => loopAll sem atticEnabled new rest st' tr'
 
 /-- collision check for new checkouts: first colliding directory in sorted order -/
